@@ -481,7 +481,7 @@ def gen_sensor_case(r, kind=None, n=40, fault_rate=0.2):
             ops.append(f"sn.poll out={base64.b64encode(out.encode()).decode() or '='} exit={code} pv={ptok}")
         else:
             if r.chance(fault_rate):
-                ops.append("sn.poll read=" + r.pick(["perm", "other", "garbage", "empty"]))
+                ops.append("sn.poll read=" + r.pick(["perm", "other", "garbage", "empty", "blank"]))
             else:
                 v = r.pick([base + r.range(-3000, 3000), base, r.range(-50000, 150000), r.range(-2**62, 2**62), 0])
                 ops.append(f"sn.poll read=ok:{v}")
